@@ -141,6 +141,8 @@ def poly(d, files, a, b, fault_at):
     ha, hb = sha(pa), sha(pb)
     cwd = os.getcwd()
     os.chdir(work)
+    if (fault_at + len(a) + len(b)) % 2:        # the working directory is not empty: it already holds an entry called `temp`
+        os.makedirs(os.path.join(work, "temp"), exist_ok=True)      # (the name the construction uses for its scratch files)
     before = set(listing(work))
     FAULT.update(on=fault_at > 0, n=0, at=fault_at)
     outname = "poly.out"
